@@ -805,7 +805,11 @@ def register(I):
         if not res:
             raise _interp.Unsupported("parse_next: no feasible outcome")
         return res
+    h_parse_next.union_ok = True
     R["Parser::parse_next"] = h_parse_next
+    for k_ in list(R):
+        if k_.startswith(("combinator::", "token::", "Parser::")) or k_ in ("Repeat::fold", "take_until", "::take_until"):
+            R[k_].union_ok = True
 
     # leaf parsers that appear as fn items
     def leaf(kind):
@@ -839,5 +843,5 @@ def register(I):
     def h_ctx_iter(I, st, args, info):
         ce = args[0].v if isinstance(args[0], ValRef) else args[0]
         from .stdmodel import IterV
-        return umap(lambda c: IterV([ValRef(x) for x in W.ctx_of(c)]), ce)
+        return umap(lambda c: umap(lambda t: IterV([ValRef(x) for x in t]), W.ctx_of(c)), ce)
     R["ContextError::context"] = h_ctx_iter
